@@ -41,9 +41,15 @@ Variable tb : table.
 
 Notation runM := (run lead cat_fix str_white resub_fix None false va_fix va_whole max_level tb).
 
-(* every macro of the table is object-like, stored under its own name, with a lexer-made body *)
+(* a function-like macro name (never scanned as a plain token in the fragments below) *)
+Definition is_fl (t : tok) : bool :=
+  is_id t && match get_macro tb (tt t) with Some m => m_fun m | None => false end.
+Definition okt2 (t : tok) : bool := okt t && negb (is_fl t).
+
+(* every macro is stored under its own name; object-like macros have lexer-made bodies
+   that contain no function-like macro name *)
 Hypothesis Hobj : forall k m, get_macro tb k = Some m ->
-  m_fun m = false /\ m_name m = k /\ forallb okt (m_repl m) = true.
+  m_name m = k /\ (m_fun m = false -> forallb okt2 (m_repl m) = true).
 
 (* ---------- the big-step function ---------- *)
 Fixpoint E (d : nat) (ne : list (option string)) (t : tok) : list tok :=
@@ -230,11 +236,13 @@ Qed.
 
 Lemma okt_set_w_hd w l : forallb okt l = true -> forallb okt (set_w_hd w l) = true.
 Proof. destruct l; cbn; auto. Qed.
+Lemma okt2_set_w_hd w l : forallb okt2 l = true -> forallb okt2 (set_w_hd w l) = true.
+Proof. destruct l; cbn; auto. Qed.
 
 (* ---------- scanning a stream computes E ---------- *)
 Definition scan_at (d : nat) : Prop :=
   forall ts rest pre p below ne,
-    forallb okt ts = true -> inv ne d -> S (List.length below) + d < max_level ->
+    forallb okt2 ts = true -> inv ne d -> S (List.length below) + d < max_level ->
     exists n pre', somes pre' = somes pre ++ flat_map (E d ne) ts /\
                    forall f, runM (n + f) (st pre (ts ++ rest) p below ne) = runM f (st pre' rest p below ne).
 
@@ -249,6 +257,7 @@ Proof.
   intros IHd ts. induction ts as [|t r IHr]; intros rest pre p below ne Hok Hinv Hlev.
   - exists 0, pre. cbn [flat_map]. rewrite app_nil_r. split; [reflexivity|]. intros f. reflexivity.
   - cbn [forallb] in Hok. apply andb_true_iff in Hok. destruct Hok as [Hot Hor].
+    unfold okt2 in Hot. apply andb_true_iff in Hot. destruct Hot as [Hot Hnfl]. apply negb_true_iff in Hnfl.
     destruct (okt_inv t Hot) as [Hx Hdef].
     cbn [flat_map app]. rewrite E_eq.
     destruct (is_id t) eqn:Hid; cbn [negb].
@@ -267,7 +276,10 @@ Proof.
         exists (S n), pre'. split.
         - rewrite Hs, somes_app. cbn [somes]. now rewrite <- app_assoc.
         - intros f. cbn [plus]. rewrite R_nomacro by assumption. apply Hrun. }
-    destruct (Hobj _ _ Hm) as (Hfun & Hname & Hbody).
+    destruct (Hobj _ _ Hm) as (Hname & Hbody).
+    assert (Hfun : m_fun m = false).
+    { unfold is_fl in Hnfl. rewrite Hid, Hm in Hnfl. exact Hnfl. }
+    specialize (Hbody Hfun).
     rewrite Hx in Hh. cbn [negb orb] in Hh.
     destruct d as [|d'].
     { (* no budget: impossible *) rewrite (pigeon ne _ m Hinv Hm) in Hh. discriminate. }
@@ -275,7 +287,7 @@ Proof.
     assert (Hinv' : inv (Some (m_name m) :: ne) d').
     { rewrite Hname. apply inv_push; [assumption|assumption|]. eapply get_macro_In, Hm. }
     destruct (IHd d' eq_refl (set_w_hd (tw t) (m_repl m)) [] [] false (top_of (pre ++ [None]) (r ++ rest) p :: below)
-                  (Some (m_name m) :: ne) (okt_set_w_hd _ _ Hbody) Hinv') as (n1 & pre1 & Hs1 & Hrun1).
+                  (Some (m_name m) :: ne) (okt2_set_w_hd _ _ Hbody) Hinv') as (n1 & pre1 & Hs1 & Hrun1).
     { cbn [List.length]. lia. }
     rewrite app_nil_r in Hrun1.
     destruct (IHr rest (map Some (somes pre ++ somes pre1)) p below ne Hor Hinv Hlev) as (n2 & pre' & Hs2 & Hrun2).
@@ -366,7 +378,7 @@ Fixpoint wfd (ts : list tok) : bool :=
             else is_id x && wfd r1
         | [] => false
         end
-      else tx t && wfd r
+      else tx t && negb (is_fl t) && wfd r
   end.
 
 Lemma scan_items d : forall n0 ts rest pre p below ne,
@@ -398,9 +410,9 @@ Proof.
         exists (S n), pre'. split.
         -- rewrite Hs, !somes_app. cbn [somes]. rewrite !app_nil_r. now rewrite <- app_assoc.
         -- intros f. cbn [plus app]. rewrite R_defined1 by assumption. apply Hrun.
-    + apply andb_true_iff in Hwf. destruct Hwf as [Hx Hwr].
-      assert (Hok : forallb okt [t] = true).
-      { cbn [forallb]. unfold okt. rewrite Hx. unfold is_txt in Hd. rewrite Hd. reflexivity. }
+    + apply andb_true_iff in Hwf. destruct Hwf as [Hx Hwr]. apply andb_true_iff in Hx. destruct Hx as [Hx Hnfl].
+      assert (Hok : forallb okt2 [t] = true).
+      { cbn [forallb]. unfold okt2, okt. rewrite Hx, Hnfl. unfold is_txt in Hd. rewrite Hd. reflexivity. }
       destruct (scan_all d [t] (r ++ rest) pre p below ne Hok Hinv Hlev) as (n1 & pre1 & Hs1 & Hrun1).
       destruct (IH r rest pre1 p below ne) as (n2 & pre' & Hs2 & Hrun2); try assumption.
       { cbn in Hlen. lia. }
@@ -431,7 +443,7 @@ Proof.
 Qed.
 
 Theorem expand_objlike l :
-  forallb okt l = true -> S (List.length names) < max_level ->
+  forallb okt2 l = true -> S (List.length names) < max_level ->
   exists n, forall fuel, n <= fuel ->
     expand lead cat_fix str_white resub_fix None false va_fix va_whole max_level tb fuel l = Ok (E_all l).
 Proof.
